@@ -22,6 +22,9 @@ import (
 
 	ethcomm "github.com/ethereum/go-ethereum/common"
 	"github.com/ethereum/go-ethereum/crypto"
+	"github.com/ontio/ontology/common"
+	scommon "github.com/ontio/ontology/core/store/common"
+	"github.com/ontio/ontology/smartcontract/service/native/utils"
 	"github.com/ontio/ontology/core/store/leveldbstore"
 	"github.com/ontio/ontology/core/store/overlaydb"
 	"github.com/ontio/ontology/core/types"
@@ -185,8 +188,51 @@ func coqVec(v []*big.Int, err bool) string {
 	return sb.String()
 }
 
-func coqA(a ethcomm.Address) string { return "(A " + be(a[:]).String() + ")" }
-func coqW(h ethcomm.Hash) string    { return "(W " + be(h[:]).String() + ")" }
+func allZero(b []byte) bool {
+	for _, x := range b {
+		if x != 0 {
+			return false
+		}
+	}
+	return true
+}
+
+func allFF(b []byte) bool {
+	for _, x := range b {
+		if x != 0xff {
+			return false
+		}
+	}
+	return true
+}
+
+// coqWord prints a byte string; 32-byte words and 20-byte addresses of the shapes the generators
+// prefer get a short form (Coq reads small numerals much faster than long literals).
+func coqWord(b []byte) string {
+	switch len(b) {
+	case 32:
+		if allZero(b[:28]) {
+			return fmt.Sprintf("(W %d)", binary.BigEndian.Uint32(b[28:]))
+		}
+		if allZero(b[4:]) {
+			return fmt.Sprintf("(WH %d)", binary.BigEndian.Uint32(b[:4]))
+		}
+		if allFF(b) {
+			return "WF"
+		}
+	case 20:
+		if allZero(b[:16]) {
+			return fmt.Sprintf("(A %d)", binary.BigEndian.Uint32(b[16:]))
+		}
+		if allZero(b[4:]) {
+			return fmt.Sprintf("(AH %d)", binary.BigEndian.Uint32(b[:4]))
+		}
+		if allFF(b[:19]) {
+			return fmt.Sprintf("(AF %d)", b[19])
+		}
+	}
+	return hx.CoqBytes(b)
+}
 
 func coqKVs(kvs []storage.VerifKV) string {
 	var s []string
@@ -196,13 +242,55 @@ func coqKVs(kvs []storage.VerifKV) string {
 	return hx.CoqList(s)
 }
 
-func coqAddrs(as []ethcomm.Address) string {
+func sortAddrs(as []ethcomm.Address) []ethcomm.Address {
 	sort.Slice(as, func(i, j int) bool { return string(as[i][:]) < string(as[j][:]) })
+	return as
+}
+
+func coqAddrs(as []ethcomm.Address) string {
 	var s []string
-	for _, a := range as {
-		s = append(s, coqA(a))
+	for _, a := range sortAddrs(as) {
+		s = append(s, coqWord(a[:]))
 	}
 	return hx.CoqList(s)
+}
+
+// ---------- fingerprint (Corr/C08.v: mix, digest) ----------
+
+var (
+	p61   = big.NewInt(2305843009213693951)
+	dbase = big.NewInt(1000000007)
+	one   = big.NewInt(1)
+)
+
+func digest(seed int64, l []*big.Int) *big.Int {
+	h := big.NewInt(seed)
+	t := new(big.Int)
+	for _, x := range l {
+		h.Mul(h, dbase)
+		h.Add(h, t.Mod(x, p61))
+		h.Add(h, one)
+		h.Mod(h, p61)
+	}
+	return h
+}
+
+func bn(b []byte) *big.Int { return be(append([]byte{1}, b...)) }
+
+func memNums(m []storage.VerifKV) []*big.Int {
+	v := []*big.Int{big.NewInt(int64(len(m)))}
+	for _, kv := range m {
+		v = append(v, bn(kv.Key), bn(kv.Val))
+	}
+	return v
+}
+
+func setNums(as []ethcomm.Address) []*big.Int {
+	v := []*big.Int{big.NewInt(int64(len(as)))}
+	for _, a := range sortAddrs(as) {
+		v = append(v, bn(a[:]))
+	}
+	return v
 }
 
 func amt(s string) *big.Int {
@@ -213,8 +301,114 @@ func amt(s string) *big.Int {
 	return v
 }
 
-// runHist executes one history; when emit is set the correspondence case is written.
-func runHist(c *hx.Ctx, h *Hist, emit bool) {
+// codeTable collects the codes whose Keccak value the model needs: (code, hash), in order.
+type codeTable struct {
+	codes  [][]byte
+	hashes []ethcomm.Hash
+}
+
+func (t *codeTable) add(code []byte) int {
+	for i, c := range t.codes {
+		if string(c) == string(code) {
+			return i
+		}
+	}
+	t.codes = append(t.codes, code)
+	t.hashes = append(t.hashes, crypto.Keccak256Hash(code))
+	return len(t.codes) - 1
+}
+
+func (t *codeTable) hsel(h ethcomm.Hash) string {
+	if h == (ethcomm.Hash{}) {
+		return "HZero"
+	}
+	for i, x := range t.hashes {
+		if x == h {
+			return fmt.Sprintf("(HTbl %s)", hx.CoqNat(i))
+		}
+	}
+	return "(HRaw " + hx.CoqBytes(h[:]) + ")"
+}
+
+func (t *codeTable) coq() string {
+	var s []string
+	for i, c := range t.codes {
+		s = append(s, "("+hx.CoqBytes(c)+", "+hx.CoqBytes(t.hashes[i][:])+")")
+	}
+	return hx.CoqList(s)
+}
+
+func indexOf(hay [][]byte, b []byte) int {
+	for i, x := range hay {
+		if string(x) == string(b) {
+			return i
+		}
+	}
+	return -1
+}
+
+// coqBent prints one effective backend entry in the most compact form of Corr/C08.v bent.
+func coqBent(e *env, t *codeTable, k, v []byte) string {
+	var addrs, slots [][]byte
+	for _, a := range e.addrs {
+		addrs = append(addrs, append([]byte{}, a[:]...))
+	}
+	for _, s := range e.slots {
+		slots = append(slots, append([]byte{}, s[:]...))
+	}
+	ongA := utils.OngContractAddress[:]
+	switch {
+	case len(k) == 21 && k[0] == byte(scommon.ST_ETH_ACCOUNT) && indexOf(addrs, k[1:]) >= 0:
+		ai := indexOf(addrs, k[1:])
+		if len(v) == 40 {
+			return fmt.Sprintf("BAcct %s %d %s", hx.CoqNat(ai), binary.LittleEndian.Uint64(v[:8]), t.hsel(ethcomm.BytesToHash(v[8:])))
+		}
+		return fmt.Sprintf("BAcctRaw %s %s", hx.CoqNat(ai), hx.CoqBytes(v))
+	case len(k) == 41 && k[0] == byte(scommon.ST_STORAGE) && string(k[1:21]) == string(ongA) && indexOf(addrs, k[21:]) >= 0:
+		ai := indexOf(addrs, k[21:])
+		// well-formed iff it is what rawBalance writes for the value it decodes to
+		if bal, ok := decodeBalance(v); ok && string(rawBalance(bal)) == string(v) {
+			return fmt.Sprintf("BBal %s %s", hx.CoqNat(ai), bal.String())
+		}
+		return fmt.Sprintf("BBalRaw %s %s", hx.CoqNat(ai), hx.CoqBytes(v))
+	case len(k) == 53 && k[0] == byte(scommon.ST_STORAGE) && indexOf(addrs, k[1:21]) >= 0 && indexOf(slots, k[21:]) >= 0:
+		return fmt.Sprintf("BSlot %s %s %s", hx.CoqNat(indexOf(addrs, k[1:21])), hx.CoqNat(indexOf(slots, k[21:])), coqWord(v))
+	case len(k) == 33 && k[0] == byte(scommon.ST_ETH_CODE):
+		return fmt.Sprintf("BCode %s %s", t.hsel(ethcomm.BytesToHash(k[1:])), hx.CoqBytes(v))
+	}
+	return fmt.Sprintf("BRaw %s %s", hx.CoqBytes(k), hx.CoqBytes(v))
+}
+
+// decodeBalance: inverse of rawBalance on its own outputs (driver-side helper, not the code under test).
+func decodeBalance(raw []byte) (*big.Int, bool) {
+	if len(raw) < 2 || int(raw[1]) != len(raw)-2 || raw[1] >= 0xfd {
+		return nil, false
+	}
+	val := raw[2:]
+	switch raw[0] {
+	case 0:
+		if len(val) != 8 {
+			return nil, false
+		}
+		q := new(big.Int).SetUint64(binary.LittleEndian.Uint64(val))
+		return q.Mul(q, big.NewInt(1000000000)), true
+	case 1:
+		v := common.BigIntFromNeoBytes(val)
+		return v, v.Sign() > 0
+	}
+	return nil, false
+}
+
+type stepRec struct {
+	cop, ret string
+	retCode  []*big.Int
+	vec      []*big.Int
+	dberr    bool
+}
+
+// runHist executes one history on the implementation, applies the oracle and writes the
+// correspondence case (verbose: literal getter vectors; otherwise fingerprints).
+func runHist(c *hx.Ctx, h *Hist, verbose bool) {
 	c.Eval()
 	store := leveldbstore.NewMemLevelDBStore()
 	defer store.Close()
@@ -234,22 +428,6 @@ func runHist(c *hx.Ctx, h *Hist, emit bool) {
 		}
 		touched[kv.K] = true
 	}
-	// effective backend content as the StateDB sees it
-	var keys []string
-	for k := range touched {
-		keys = append(keys, k)
-	}
-	sort.Strings(keys)
-	var backend []string
-	for _, k := range keys {
-		v, err := overlay.Get(hx.UnHex(k))
-		if err != nil {
-			panic(err)
-		}
-		if len(v) != 0 {
-			backend = append(backend, "("+hx.CoqBytes(hx.UnHex(k))+", "+hx.CoqBytes(v)+")")
-		}
-	}
 
 	cache := storage.NewCacheDB(overlay)
 	sd := storage.NewStateDB(cache, ethcomm.Hash{}, ethcomm.Hash{}, ong.OngBalanceHandle{})
@@ -262,9 +440,41 @@ func runHist(c *hx.Ctx, h *Hist, emit bool) {
 	}
 	e.mkNames()
 
+	// Keccak table: codes set by the history, then code entries of the backend that are stored under their hash
+	tbl := &codeTable{}
+	for _, o := range h.Ops {
+		if o.Op == "SetCode" {
+			tbl.add(hx.UnHex(o.Code))
+		}
+	}
+	// effective backend content as the StateDB sees it
+	var keys []string
+	for k := range touched {
+		keys = append(keys, k)
+	}
+	sort.Strings(keys)
+	type kvb struct{ k, v []byte }
+	var eff []kvb
+	for _, k := range keys {
+		v, err := overlay.Get(hx.UnHex(k))
+		if err != nil {
+			panic(err)
+		}
+		if len(v) != 0 {
+			kb := hx.UnHex(k)
+			eff = append(eff, kvb{kb, v})
+			if len(kb) == 33 && kb[0] == byte(scommon.ST_ETH_CODE) && crypto.Keccak256Hash(v) == ethcomm.BytesToHash(kb[1:]) {
+				tbl.add(v)
+			}
+		}
+	}
+	var backend []string
+	for _, x := range eff {
+		backend = append(backend, coqBent(e, tbl, x.k, x.v))
+	}
+
 	shadow := map[int64][]*big.Int{} // id -> getters right after the Snapshot() that returned id
-	tbl := map[string]string{}
-	var steps []string
+	var steps []stepRec
 	maxDepth, reverts, restoredAfterChange := 0, 0, 0
 	prev := e.observe()
 
@@ -273,86 +483,80 @@ func runHist(c *hx.Ctx, h *Hist, emit bool) {
 			panic("bad index in history")
 		}
 		a, k := e.addrs[o.A], e.slots[o.S]
-		var coqOp, coqRet string
+		ai, si := hx.CoqNat(o.A), hx.CoqNat(o.S)
+		var coqOp string
 		var kind int
 		var msg string
 		var snapID int64
 		retRet := "RUnit"
+		retCode := []*big.Int{big.NewInt(0)}
 		switch o.Op {
 		case "SetState":
 			val := ethcomm.BytesToHash(hx.UnHex(o.Val))
-			coqOp = fmt.Sprintf("OSetState %s %s %s", coqA(a), coqW(k), coqW(val))
+			coqOp = fmt.Sprintf("CSetState %s %s %s", ai, si, coqWord(val[:]))
 			kind, msg = try(func() { sd.SetState(a, k, val) })
 		case "SetNonce":
-			coqOp = fmt.Sprintf("OSetNonce %s %d", coqA(a), o.N)
+			coqOp = fmt.Sprintf("CSetNonce %s %d", ai, o.N)
 			kind, msg = try(func() { sd.SetNonce(a, o.N) })
 		case "SetCode":
 			code := hx.UnHex(o.Code)
-			hash := crypto.Keccak256Hash(code)
-			tbl[hx.CoqBytes(code)] = coqW(hash)
-			coqOp = fmt.Sprintf("OSetCode %s %s", coqA(a), hx.CoqBytes(code))
+			coqOp = fmt.Sprintf("CSetCode %s %s", ai, hx.CoqNat(tbl.add(code)))
 			kind, msg = try(func() { sd.SetCode(a, code) })
 		case "AddBalance":
-			coqOp = fmt.Sprintf("OAddBalance %s %s", coqA(a), o.Amt)
+			coqOp = fmt.Sprintf("CAddBalance %s %s", ai, o.Amt)
 			kind, msg = try(func() { sd.AddBalance(a, amt(o.Amt)) })
 		case "SubBalance":
-			coqOp = fmt.Sprintf("OSubBalance %s %s", coqA(a), o.Amt)
+			coqOp = fmt.Sprintf("CSubBalance %s %s", ai, o.Amt)
 			kind, msg = try(func() { sd.SubBalance(a, amt(o.Amt)) })
 		case "Suicide":
-			coqOp = fmt.Sprintf("OSuicide %s", coqA(a))
-			kind, msg = try(func() { retRet = "RBool " + hx.CoqBool(sd.Suicide(a)) })
+			coqOp = fmt.Sprintf("CSuicide %s", ai)
+			kind, msg = try(func() {
+				r := sd.Suicide(a)
+				retRet = "(RBool " + hx.CoqBool(r) + ")"
+				retCode = []*big.Int{big.NewInt(1), big.NewInt(0)}
+				if r {
+					retCode[1] = big.NewInt(1)
+				}
+			})
 		case "AddLog":
-			coqOp = fmt.Sprintf("OAddLog %d", o.N)
+			coqOp = fmt.Sprintf("CAddLog %d", o.N)
 			data := make([]byte, 8)
 			binary.BigEndian.PutUint64(data, o.N)
 			kind, msg = try(func() { sd.AddLog(&types.StorageLog{Address: a, Topics: []ethcomm.Hash{k}, Data: data}) })
 		case "AddRefund":
-			coqOp = fmt.Sprintf("OAddRefund %d", o.N)
+			coqOp = fmt.Sprintf("CAddRefund %d", o.N)
 			kind, msg = try(func() { sd.AddRefund(o.N) })
 		case "SubRefund":
-			coqOp = fmt.Sprintf("OSubRefund %d", o.N)
+			coqOp = fmt.Sprintf("CSubRefund %d", o.N)
 			kind, msg = try(func() { sd.SubRefund(o.N) })
 		case "CreateAccount":
-			coqOp = fmt.Sprintf("OCreateAccount %s", coqA(a))
+			coqOp = fmt.Sprintf("CCreate %s", ai)
 			kind, msg = try(func() { sd.CreateAccount(a) })
 		case "Snapshot":
-			coqOp = "OSnapshot"
-			var id int
-			kind, msg = try(func() { id = sd.Snapshot() })
-			retRet = "RInt " + hx.CoqZ(int64(id))
-			snapID = int64(id)
-			if kind == rOK {
-				// ids at or above the returned one cannot be live any more
-				for j := range shadow {
-					if j >= int64(id) {
-						delete(shadow, j)
-					}
-				}
-				shadow[int64(id)] = nil // filled below with the getters after the call
-				if len(shadow) > maxDepth {
-					maxDepth = len(shadow)
-				}
-			}
+			coqOp = "CSnap"
+			kind, msg = try(func() {
+				id := sd.Snapshot()
+				snapID = int64(id)
+				retRet = "(RInt " + hx.CoqZ(snapID) + ")"
+				retCode = []*big.Int{big.NewInt(2), big.NewInt(snapID)}
+			})
 		case "Revert":
-			coqOp = "ORevert " + hx.CoqZ(o.Idx)
+			coqOp = "CRevert " + hx.CoqZ(o.Idx)
 			kind, msg = try(func() { sd.RevertToSnapshot(int(o.Idx)) })
 		case "Discard":
-			coqOp = "ODiscard " + hx.CoqZ(o.Idx)
+			coqOp = "CDiscard " + hx.CoqZ(o.Idx)
 			kind, msg = try(func() { sd.DiscardSnapshot(int(o.Idx)) })
 		default:
 			panic("unknown op " + o.Op)
 		}
 		switch kind {
-		case rOK:
-			coqRet = retRet
 		case rPanic:
-			coqRet = "RPanic"
+			retRet, retCode = "RPanic", []*big.Int{big.NewInt(3)}
 			c.Count("panic:" + o.Op)
 		case rFault:
-			coqRet = "RFault"
+			retRet, retCode = "RFault", []*big.Int{big.NewInt(4)}
 			c.Count("fault:" + o.Op)
 		}
-		_ = msg
 		cur := e.observe()
 		dberr := sd.DbErr() != nil
 
@@ -362,9 +566,18 @@ func runHist(c *hx.Ctx, h *Hist, emit bool) {
 		case "Snapshot":
 			if kind == rOK {
 				if d := e.diff(cur, prev); d != "" {
-					c.Fail("snapshot:getter-changed", "Snapshot() itself changed what a getter reads", at, d, "no change")
+					c.Fail("snapshot:getter-changed", "Snapshot() itself changed what a getter reads", h, map[string]interface{}{"at": at, "diff": d}, "no change")
+				}
+				// ids at or above the returned one cannot be live any more
+				for j := range shadow {
+					if j >= snapID {
+						delete(shadow, j)
+					}
 				}
 				shadow[snapID] = cur
+				if len(shadow) > maxDepth {
+					maxDepth = len(shadow)
+				}
 			}
 		case "Revert":
 			want, live := shadow[o.Idx]
@@ -372,7 +585,8 @@ func runHist(c *hx.Ctx, h *Hist, emit bool) {
 				reverts++
 				if live {
 					if d := e.diff(cur, want); d != "" {
-						c.Fail("revert:getter-differs", "after RevertToSnapshot a getter does not read as when the snapshot was taken", at, d, "all getters as at Snapshot()")
+						c.Fail("revert:getter-differs", "after RevertToSnapshot a getter does not read as when the snapshot was taken", h,
+							map[string]interface{}{"step": i, "op": o, "diff": d}, "all getters as at Snapshot()")
 					} else if e.diff(prev, want) != "" {
 						restoredAfterChange++
 					}
@@ -384,15 +598,18 @@ func runHist(c *hx.Ctx, h *Hist, emit bool) {
 				}
 			} else {
 				if live {
-					c.Fail("revert:valid-id-rejected", "RevertToSnapshot panicked on an id that is still valid", at, msg, "revert")
+					c.Fail("revert:valid-id-rejected", "RevertToSnapshot panicked on an id that is still valid", h,
+						map[string]interface{}{"step": i, "op": o, "panic": msg}, "revert")
 				}
 				if d := e.diff(cur, prev); d != "" {
-					c.Fail("revert:partial-on-panic", "a panicking RevertToSnapshot changed what getters read", at, d, "no change")
+					c.Fail("revert:partial-on-panic", "a panicking RevertToSnapshot changed what getters read", h,
+						map[string]interface{}{"step": i, "op": o, "diff": d}, "no change")
 				}
 			}
 		case "Discard":
 			if d := e.diff(cur, prev); d != "" {
-				c.Fail("discard:getter-changed", "DiscardSnapshot changed what a getter reads", at, d, "no change")
+				c.Fail("discard:getter-changed", "DiscardSnapshot changed what a getter reads", h,
+					map[string]interface{}{"step": i, "op": o, "diff": d}, "no change")
 			}
 			if kind == rOK {
 				for j := range shadow {
@@ -401,17 +618,21 @@ func runHist(c *hx.Ctx, h *Hist, emit bool) {
 					}
 				}
 			} else if _, live := shadow[o.Idx]; live {
-				c.Fail("discard:valid-id-rejected", "DiscardSnapshot panicked on an id that is still valid", at, msg, "discard")
+				c.Fail("discard:valid-id-rejected", "DiscardSnapshot panicked on an id that is still valid", h,
+					map[string]interface{}{"step": i, "op": o, "panic": msg}, "discard")
 			}
 		}
 		prev = cur
-		steps = append(steps, "("+coqOp+", "+coqRet+", "+coqVec(cur, dberr)+")")
+		steps = append(steps, stepRec{cop: coqOp, ret: retRet, retCode: retCode, vec: cur, dberr: dberr})
 		c.Count("op:" + o.Op)
 	}
 
 	c.Count("hist:" + h.Kind)
 	c.Count(fmt.Sprintf("hist:len<=%d", bucket(len(h.Ops))))
 	c.Count(fmt.Sprintf("hist:maxdepth=%d", min(maxDepth, 6)))
+	if len(eff) > 0 {
+		c.Count("hist:with-backend")
+	}
 	if reverts > 0 {
 		c.Count("hist:with-revert")
 	}
@@ -420,33 +641,48 @@ func runHist(c *hx.Ctx, h *Hist, emit bool) {
 		b, _ := json.Marshal(h)
 		c.Nontrivial(string(b))
 	}
-	if !emit {
-		return
-	}
-	var tb []string
-	var codes []string
-	for code := range tbl {
-		codes = append(codes, code)
-	}
-	sort.Strings(codes)
-	for _, code := range codes {
-		tb = append(tb, "("+code+", "+tbl[code]+")")
-	}
+
 	var as, ss []string
 	for _, a := range e.addrs {
-		as = append(as, coqA(a))
+		as = append(as, coqWord(a[:]))
 	}
 	for _, s := range e.slots {
-		ss = append(ss, coqW(s))
+		ss = append(ss, coqWord(s[:]))
 	}
-	var snaps []string
-	for _, sn := range sd.VerifSnapshots() {
-		snaps = append(snaps, fmt.Sprintf("(%s, %s, %s, %d)", coqKVs(sn.Changes), coqAddrs(sn.Suicided), hx.CoqNat(sn.LogsSize), sn.Refund))
+	head := fmt.Sprintf("%s %s %s %s", tbl.coq(), hx.CoqList(as), hx.CoqList(ss), hx.CoqList(backend))
+	mem := cache.VerifDumpMem()
+	suic := sd.VerifSuicided()
+	snapsV := sd.VerifSnapshots()
+	var term string
+	if verbose {
+		var st, snaps []string
+		for _, r := range steps {
+			st = append(st, "VSt ("+r.cop+") "+r.ret+" "+coqVec(r.vec, r.dberr))
+		}
+		for _, sn := range snapsV {
+			snaps = append(snaps, fmt.Sprintf("SnapD %s %s %s %d", coqKVs(sn.Changes), coqAddrs(sn.Suicided), hx.CoqNat(sn.LogsSize), sn.Refund))
+		}
+		term = fmt.Sprintf("CHist %s\n  [%s]\n  %s %s %s", head, strings.Join(st, ";\n   "),
+			coqKVs(mem), coqAddrs(suic), hx.CoqList(snaps))
+	} else {
+		var st []string
+		for _, r := range steps {
+			errN := big.NewInt(0)
+			if r.dberr {
+				errN = big.NewInt(1)
+			}
+			nums := append(append(append([]*big.Int{}, r.retCode...), r.vec...), errN)
+			st = append(st, "DSt ("+r.cop+") "+r.ret+" "+digest(7, nums).String())
+		}
+		fin := append(memNums(mem), setNums(suic)...)
+		fin = append(fin, big.NewInt(int64(len(snapsV))))
+		for _, sn := range snapsV {
+			fin = append(fin, memNums(sn.Changes)...)
+			fin = append(fin, setNums(sn.Suicided)...)
+			fin = append(fin, big.NewInt(int64(sn.LogsSize)), new(big.Int).SetUint64(sn.Refund))
+		}
+		term = fmt.Sprintf("CHistD %s\n  [%s]\n  %s", head, strings.Join(st, ";\n   "), digest(11, fin).String())
 	}
-	term := fmt.Sprintf("CHist %s %s %s %s\n  %s\n  %s %s %s",
-		hx.CoqList(backend), hx.CoqList(tb), hx.CoqList(as), hx.CoqList(ss),
-		"["+strings.Join(steps, ";\n   ")+"]",
-		coqKVs(cache.VerifDumpMem()), coqAddrs(sd.VerifSuicided()), hx.CoqList(snaps))
 	c.Sample(map[string]interface{}{"kind": h.Kind, "ops": len(h.Ops), "history": h})
 	c.Case(term, h)
 }
@@ -488,6 +724,6 @@ func Run(c *hx.Ctx) {
 	}
 	n := c.N(220, 2200)
 	for i := 0; i < n; i++ {
-		runHist(c, genHist(c, i), true)
+		runHist(c, genHist(c, i), false)
 	}
 }
